@@ -23,6 +23,13 @@ theorem mapM_option_eq_map {α β : Type} {f : α → Option β} {g : α → β}
       mapM_option_eq_map r (fun x hx => h x (List.mem_cons_of_mem a hx))]
     rfl
 
+theorem filterMap_congr_mem {α β : Type} {f g : α → Option β} :
+    ∀ {l : List α}, (∀ a ∈ l, f a = g a) → l.filterMap f = l.filterMap g
+  | [], _ => rfl
+  | a :: r, h => by
+    rw [List.filterMap_cons, List.filterMap_cons, h a List.mem_cons_self,
+      filterMap_congr_mem (l := r) (fun x hx => h x (List.mem_cons_of_mem a hx))]
+
 theorem nodup_single {α : Type} (a : α) : [a].Nodup :=
   List.nodup_cons.mpr ⟨List.not_mem_nil, List.nodup_nil⟩
 
@@ -324,7 +331,7 @@ theorem MapInv.groupVals_eq {ls : List (List Tok)} {S : Nat → Tag → Prop} {m
     (hc : ∀ q < ls.length, S q e.1) : groupVals ls.length e.2 = valsOf ls e.1 := by
   rw [valsOf_eq_range]
   unfold groupVals
-  apply List.filterMap_congr
+  apply filterMap_congr_mem
   intro q hq
   have hq' : q ∈ e.2.map (·.1) := (h.entMem e he q).mpr (hc q (List.mem_range.mp hq))
   obtain ⟨x, hx, hxq⟩ := List.mem_map.mp hq'
@@ -334,7 +341,7 @@ theorem MapInv.groupVals_eq {ls : List (List Tok)} {S : Nat → Tag → Prop} {m
     exact absurd (beq_iff_eq.mpr hxq) (hf x hx)
   | some y =>
     have hy : y ∈ e.2 := List.mem_of_find?_eq_some hf
-    have hyq : y.1 = q := eq_of_beq (List.find?_some hf)
+    have hyq : y.1 = q := eq_of_beq (List.find?_some (p := fun (x : Nat × Val) => x.1 == q) hf)
     have := h.entVal e he y hy
     rw [hyq] at this
     rw [this]
@@ -408,5 +415,334 @@ theorem MapInv.fire {ls : List (List Tok)} {S : Nat → Tag → Prop} {m : IMap}
     by_cases ho : τ ∈ o.map (·.1)
     · exact Or.inl ho
     · exact Or.inr ⟨⟨⟨0, hc 0 hP⟩, ho⟩, hc⟩
+
+/-! ## one round -/
+
+/-- the token delivered by a port in round `r` -/
+def tokAt (r : Nat) (l : List Tok) : Tok := l[r]?.getD default
+
+/-- tag `τ` was delivered on port `q` in one of the first `r` rounds -/
+def seen (ls : List (List Tok)) (r q : Nat) (τ : Tag) : Prop := τ ∈ ((portLog ls q).take r).map (·.tag)
+
+/-- one iteration of the `while True` loop -/
+def stepRound (ls : List (List Tok)) (s : GState) (r : Nat) : GState :=
+  match roundInputs ls r with
+  | some toks => round ls.length s toks
+  | none => s
+
+/-- the state after the first `r` iterations -/
+def runRoundsUpTo (ls : List (List Tok)) (r : Nat) : GState :=
+  (List.range r).foldl (stepRound ls) { map := [], out := [] }
+
+theorem runRounds_eq (ls : List (List Tok)) : runRounds ls = runRoundsUpTo ls (numRounds ls) := rfl
+
+theorem runRoundsUpTo_succ (ls : List (List Tok)) (r : Nat) :
+    runRoundsUpTo ls (r + 1) = stepRound ls (runRoundsUpTo ls r) r := by
+  unfold runRoundsUpTo
+  rw [List.range_succ, List.foldl_append]
+  rfl
+
+theorem tokAt_eq {r : Nat} {l : List Tok} (h : r < l.length) : tokAt r l = l[r] := by
+  unfold tokAt
+  rw [List.getElem?_eq_getElem h]
+  rfl
+
+theorem roundInputs_eq {ls : List (List Tok)} {r : Nat} (h : ∀ l ∈ ls, r < l.length) :
+    roundInputs ls r = some (ls.map (tokAt r)) :=
+  mapM_option_eq_map ls (fun l hl => by rw [tokAt_eq (h l hl), List.getElem?_eq_getElem (h l hl)])
+
+theorem portLog_mem {ls : List (List Tok)} {q : Nat} (hq : q < ls.length) : portLog ls q ∈ ls := by
+  unfold portLog
+  rw [List.getElem?_eq_getElem hq]
+  exact List.getElem_mem hq
+
+theorem portLog_ge {ls : List (List Tok)} {q : Nat} (hq : ¬ q < ls.length) : portLog ls q = [] := by
+  unfold portLog
+  rw [List.getElem?_eq_none (Nat.le_of_not_lt hq)]
+  rfl
+
+theorem seen_bound {ls : List (List Tok)} {r q : Nat} {τ : Tag} (h : seen ls r q τ) : q < ls.length := by
+  apply Classical.byContradiction
+  intro hq
+  unfold seen at h
+  rw [portLog_ge hq] at h
+  simp at h
+
+theorem DistinctTags.lookup_of_mem : ∀ {l : List Tok}, DistinctTags l → ∀ {t : Tok}, t ∈ l →
+    lookupTag l t.tag = some t.val
+  | [], _, _, ht => nomatch ht
+  | x :: r, d, t, ht => by
+    have hd := List.pairwise_cons.mp d
+    unfold lookupTag
+    rw [List.find?_cons]
+    by_cases hx : x.tag = t.tag
+    · rw [beq_iff_eq.mpr hx]
+      rcases List.mem_cons.mp ht with rfl | ht'
+      · rfl
+      · exact absurd hx (hd.1 t ht')
+    · rw [beq_eq_false_iff_ne.mpr hx]
+      rcases List.mem_cons.mp ht with rfl | ht'
+      · exact absurd rfl hx
+      · exact DistinctTags.lookup_of_mem (l := r) hd.2 ht'
+
+theorem DistinctTags.not_seen {l : List Tok} (d : DistinctTags l) {r : Nat} (hr : r < l.length) :
+    l[r].tag ∉ (l.take r).map (·.tag) := by
+  intro hc
+  obtain ⟨a, ha, hat⟩ := List.mem_map.mp hc
+  unfold DistinctTags at d
+  rw [← List.take_append_drop r l, List.pairwise_append] at d
+  have hb : l[r] ∈ l.drop r := by
+    rw [List.drop_eq_getElem_cons hr]
+    exact List.mem_cons_self
+  exact d.2.2 a ha l[r] hb hat
+
+theorem mem_tags_take_succ {l : List Tok} {r : Nat} (hr : r < l.length) (τ : Tag) :
+    τ ∈ (l.take (r + 1)).map (·.tag) ↔ τ ∈ (l.take r).map (·.tag) ∨ (tokAt r l).tag = τ := by
+  rw [List.take_succ_eq_append_getElem hr, List.map_append, List.mem_append, tokAt_eq hr]
+  simp only [List.map_cons, List.map_nil, List.mem_singleton]
+  exact ⟨fun h => h.imp id Eq.symm, fun h => h.imp id Eq.symm⟩
+
+theorem mem_zipIdx_round {ls : List (List Tok)} {r : Nat} (tq : Tok × Nat) :
+    tq ∈ (ls.map (tokAt r)).zipIdx ↔ tq.2 < ls.length ∧ tq.1 = tokAt r (portLog ls tq.2) := by
+  rw [List.mem_zipIdx_iff_getElem?, List.getElem?_map]
+  by_cases hq : tq.2 < ls.length
+  · unfold portLog
+    rw [List.getElem?_eq_getElem hq]
+    simp only [Option.map_some, Option.some.injEq, Option.getD_some]
+    exact ⟨fun h => ⟨hq, h.symm⟩, fun h => h.2.symm⟩
+  · rw [List.getElem?_eq_none (Nat.le_of_not_lt hq)]
+    constructor
+    · intro h
+      simp at h
+    · intro h
+      exact absurd h.1 hq
+
+theorem seen_succ {ls : List (List Tok)} {r : Nat} (h : ∀ l ∈ ls, r < l.length) (q : Nat) (τ : Tag) :
+    (seen ls r q τ ∨ ∃ tq ∈ (ls.map (tokAt r)).zipIdx, tq.2 = q ∧ tq.1.tag = τ) ↔ seen ls (r + 1) q τ := by
+  by_cases hq : q < ls.length
+  · unfold seen
+    rw [mem_tags_take_succ (h _ (portLog_mem hq))]
+    constructor
+    · rintro (h1 | ⟨tq, h1, rfl, h2⟩)
+      · exact Or.inl h1
+      · rw [((mem_zipIdx_round tq).mp h1).2] at h2
+        exact Or.inr h2
+    · rintro (h1 | h1)
+      · exact Or.inl h1
+      · exact Or.inr ⟨(tokAt r (portLog ls q), q), (mem_zipIdx_round _).mpr ⟨hq, rfl⟩, rfl, h1⟩
+  · constructor
+    · rintro (h1 | ⟨tq, h1, rfl, _⟩)
+      · exact absurd (seen_bound h1) hq
+      · exact absurd ((mem_zipIdx_round tq).mp h1).1 hq
+    · intro h1
+      exact absurd (seen_bound h1) hq
+
+/-- the invariant at the loop head, after `r` iterations -/
+structure RoundInv (ls : List (List Tok)) (r : Nat) (s : GState) : Prop where
+  inv : MapInv ls (seen ls r) s.map s.out
+  fired : ∀ τ, (∀ q < ls.length, seen ls r q τ) → τ ∈ s.out.map (·.1)
+
+theorem RoundInv.step {ls : List (List Tok)} {r : Nat} {s : GState} (hP : 0 < ls.length)
+    (hd : ∀ l ∈ ls, DistinctTags l) (hr : ∀ l ∈ ls, r < l.length) (h : RoundInv ls r s) :
+    RoundInv ls (r + 1) (stepRound ls s r) := by
+  unfold stepRound
+  rw [roundInputs_eq hr]
+  show RoundInv ls (r + 1) (round ls.length s (ls.map (tokAt r)))
+  unfold round groupRound
+  have h1 := MapInv.addMany (ls.map (tokAt r)).zipIdx h.inv
+    (by rw [List.zipIdx_map_snd]; exact List.nodup_range')
+    (fun tq htq => by
+      obtain ⟨hq, ht⟩ := (mem_zipIdx_round tq).mp htq
+      have hl := portLog_mem hq
+      have hrl := hr _ hl
+      rw [tokAt_eq hrl] at ht
+      refine ⟨hq, ?_, ?_⟩
+      · unfold seen
+        rw [ht]
+        exact (hd _ hl).not_seen hrl
+      · rw [ht]
+        exact (hd _ hl).lookup_of_mem (List.getElem_mem hrl))
+  have h2 := (h1.congr (seen_succ hr)).fire hP
+  exact ⟨h2.1, h2.2⟩
+
+theorem RoundInv.init {ls : List (List Tok)} (hP : 0 < ls.length) : RoundInv ls 0 { map := [], out := [] } := by
+  have hs : ∀ q τ, ¬ seen ls 0 q τ := fun q τ h => by
+    unfold seen at h
+    simp at h
+  refine ⟨⟨fun q τ h => absurd h (hs q τ), List.nodup_nil, (fun e he => nomatch he), (fun e he => nomatch he),
+    (fun e he => nomatch he), fun τ => ?_, List.nodup_nil, (fun g hg => nomatch hg), (fun g hg => nomatch hg)⟩,
+    fun τ h => absurd (h 0 hP) (hs 0 τ)⟩
+  constructor
+  · intro h
+    nomatch h
+  · rintro ⟨⟨q, h⟩, _⟩
+    exact absurd h (hs q τ)
+
+theorem foldl_min_le (r : List (List Tok)) : ∀ (acc : Nat),
+    r.foldl (fun acc x => min acc x.length) acc ≤ acc ∧
+    ∀ x ∈ r, r.foldl (fun acc x => min acc x.length) acc ≤ x.length := by
+  induction r with
+  | nil => intro acc; exact ⟨Nat.le_refl _, fun x hx => nomatch hx⟩
+  | cons y r ih =>
+    intro acc
+    rw [List.foldl_cons]
+    have h := ih (min acc y.length)
+    refine ⟨Nat.le_trans h.1 (Nat.min_le_left _ _), ?_⟩
+    intro x hx
+    rcases List.mem_cons.mp hx with rfl | hx'
+    · exact Nat.le_trans h.1 (Nat.min_le_right _ _)
+    · exact h.2 x hx'
+
+theorem numRounds_le {ls : List (List Tok)} : ∀ l ∈ ls, numRounds ls ≤ l.length := by
+  cases ls with
+  | nil => intro l hl; nomatch hl
+  | cons y r =>
+    intro l hl
+    unfold numRounds
+    rcases List.mem_cons.mp hl with rfl | hl'
+    · exact (foldl_min_le r _).1
+    · exact (foldl_min_le r _).2 l hl'
+
+/-- **The invariant holds after every iteration.** -/
+theorem roundInv_run {ls : List (List Tok)} (hne : ls ≠ []) (hd : ∀ l ∈ ls, DistinctTags l) :
+    ∀ r, r ≤ numRounds ls → RoundInv ls r (runRoundsUpTo ls r) := by
+  have hP : 0 < ls.length := List.length_pos_iff.mpr hne
+  intro r
+  induction r with
+  | zero => intro _; exact RoundInv.init hP
+  | succ r ih =>
+    intro hr
+    rw [runRoundsUpTo_succ]
+    exact (ih (Nat.le_of_succ_le hr)).step hP hd (fun l hl => Nat.lt_of_lt_of_le hr (numRounds_le l hl))
+
+/-! ## complete inputs: every port carries the same tag set -/
+
+theorem foldl_min_const {L : Nat} : ∀ (r : List (List Tok)), (∀ x ∈ r, x.length = L) →
+    r.foldl (fun acc x => min acc x.length) L = L
+  | [], _ => rfl
+  | y :: r, h => by
+    rw [List.foldl_cons, h y List.mem_cons_self, Nat.min_self]
+    exact foldl_min_const r (fun x hx => h x (List.mem_cons_of_mem y hx))
+
+theorem numRounds_eq {ls : List (List Tok)} {L : Nat} (hne : ls ≠ []) (hL : ∀ l ∈ ls, l.length = L) :
+    numRounds ls = L := by
+  cases ls with
+  | nil => exact absurd rfl hne
+  | cons y r =>
+    unfold numRounds
+    rw [hL y List.mem_cons_self]
+    exact foldl_min_const r (fun x hx => hL x (List.mem_cons_of_mem y hx))
+
+theorem seen_all {ls : List (List Tok)} {L : Nat} (hL : ∀ l ∈ ls, l.length = L) (q : Nat) (τ : Tag) :
+    seen ls L q τ ↔ q < ls.length ∧ τ ∈ (portLog ls q).map (·.tag) := by
+  constructor
+  · intro h
+    have hq := seen_bound h
+    unfold seen at h
+    rw [List.take_of_length_le (Nat.le_of_eq (hL _ (portLog_mem hq)))] at h
+    exact ⟨hq, h⟩
+  · rintro ⟨hq, h⟩
+    unfold seen
+    rw [List.take_of_length_le (Nat.le_of_eq (hL _ (portLog_mem hq)))]
+    exact h
+
+theorem DistinctTags.nodup_tags {l : List Tok} (d : DistinctTags l) : (l.map (·.tag)).Nodup :=
+  List.pairwise_map.mpr d
+
+theorem head_eq_portLog {ls : List (List Tok)} (hne : ls ≠ []) : ls.head hne = portLog ls 0 := by
+  cases ls with
+  | nil => exact absurd rfl hne
+  | cons y r => rfl
+
+/-- **Operational = denotational, for every arrival order.** When all ports carry the same (duplicate-free) tag
+set, the loop ends with an empty `inputs_map` and has fired, up to order, exactly one group per tag, with the
+values of that tag in port order. -/
+theorem runRounds_complete {ls : List (List Tok)} (hne : ls ≠ []) (hd : ∀ l ∈ ls, DistinctTags l)
+    (hsame : ∀ l ∈ ls, ∀ l' ∈ ls, (l.map (·.tag)).Perm (l'.map (·.tag))) :
+    (runRounds ls).map = [] ∧
+    (runRounds ls).out.Perm (((ls.head hne).map (·.tag)).map (fun t => (t, valsOf ls t))) := by
+  have hP : 0 < ls.length := List.length_pos_iff.mpr hne
+  have hhead : ls.head hne ∈ ls := List.head_mem hne
+  have hL : ∀ l ∈ ls, l.length = (ls.head hne).length := fun l hl => by
+    have := (hsame l hl _ hhead).length_eq
+    rwa [List.length_map, List.length_map] at this
+  have hN := numRounds_eq hne hL
+  have hI : RoundInv ls (ls.head hne).length (runRounds ls) := by
+    rw [runRounds_eq, hN]
+    exact roundInv_run hne hd _ (Nat.le_of_eq hN.symm)
+  have hseen : ∀ q τ, seen ls (ls.head hne).length q τ → τ ∈ (ls.head hne).map (·.tag) := fun q τ h => by
+    obtain ⟨hq, h1⟩ := (seen_all hL q τ).mp h
+    exact (hsame _ (portLog_mem hq) _ hhead).mem_iff.mp h1
+  have hcomp : ∀ τ, τ ∈ (ls.head hne).map (·.tag) → ∀ q < ls.length, seen ls (ls.head hne).length q τ :=
+    fun τ h q hq => (seen_all hL q τ).mpr ⟨hq, (hsame _ hhead _ (portLog_mem hq)).mem_iff.mp h⟩
+  constructor
+  · rw [List.eq_nil_iff_forall_not_mem]
+    intro e he
+    obtain ⟨⟨q, hq⟩, hno⟩ := (hI.inv.keyMem e.1).mp (List.mem_map.mpr ⟨e, he, rfl⟩)
+    exact hno (hI.fired e.1 (hcomp e.1 (hseen q e.1 hq)))
+  · refine perm_map_of_keys hI.inv.outNodup (hd _ hhead).nodup_tags (fun t => ⟨?_, ?_⟩) hI.inv.outVal
+    · intro ht
+      obtain ⟨g, hg, rfl⟩ := List.mem_map.mp ht
+      exact hseen 0 g.1 (hI.inv.outDone g hg 0 hP)
+    · intro ht
+      exact hI.fired t (hcomp t ht)
+
+/-! ## connection with `groupStep` -/
+
+theorem mapM_option_eq_filterMap {α β : Type} {f : α → Option β} :
+    ∀ (l : List α), (∀ a ∈ l, (f a).isSome) → l.mapM f = some (l.filterMap f)
+  | [], _ => rfl
+  | a :: r, h => by
+    obtain ⟨b, hb⟩ := Option.isSome_iff_exists.mp (h a List.mem_cons_self)
+    rw [List.mapM_cons, List.filterMap_cons, hb,
+      mapM_option_eq_filterMap r (fun x hx => h x (List.mem_cons_of_mem a hx))]
+    rfl
+
+theorem lookupTag_isSome {l : List Tok} {t : Tag} (h : t ∈ l.map (·.tag)) : (lookupTag l t).isSome := by
+  obtain ⟨x, hx, hxt⟩ := List.mem_map.mp h
+  unfold lookupTag
+  rw [Option.isSome_map, List.find?_isSome]
+  exact ⟨x, hx, beq_iff_eq.mpr hxt⟩
+
+theorem groupAt_eq_valsOf {e : Env} {ins : List Nat} {t : Tag} (h : ∀ q ∈ ins, t ∈ (e.get q).map (·.tag)) :
+    groupAt e ins t = some (valsOf (ins.map e.get) t) := by
+  unfold groupAt valsOf
+  rw [List.filterMap_map]
+  exact mapM_option_eq_filterMap ins (fun q hq => lookupTag_isSome (h q hq))
+
+/-- the tokens the fired groups `gs` put on output `j` -/
+def emitOf (f : List Val → List (Option Val)) (j : Nat) (g : Tag × List Val) : Option Tok :=
+  ((f g.2)[j]?.join).map (fun v => { tag := g.1, val := v })
+
+theorem emitted_eq (f : List Val → List (Option Val)) (j : Nat) (s : GState) :
+    emitted f j s = s.out.filterMap (emitOf f j) := rfl
+
+/-- when all input ports carry the same tag set, output `j` of the denotation holds one candidate token per tag
+of the first port -/
+theorem groupStep_eq_of_sameTags {e : Env} {ins : List Nat} (hne : ins ≠ [])
+    (hsame : ∀ q ∈ ins, ∀ q' ∈ ins, ((e.get q).map (·.tag)).Perm ((e.get q').map (·.tag)))
+    (nouts : Nat) (f : List Val → List (Option Val)) {j : Nat} (hj : j < nouts) :
+    (groupStep e ins nouts f)[j]?.getD [] =
+      (((e.get (ins.head hne)).map (·.tag)).map (fun t => (t, valsOf (ins.map e.get) t))).filterMap
+        (emitOf f j) := by
+  cases ins with
+  | nil => exact absurd rfl hne
+  | cons p r =>
+    have hg : ∀ t ∈ (e.get p).map (·.tag), groupAt e (p :: r) t = some (valsOf ((p :: r).map e.get) t) :=
+      fun t ht => groupAt_eq_valsOf (fun q hq => (hsame p List.mem_cons_self q hq).mem_iff.mp ht)
+    unfold groupStep
+    rw [List.getElem?_map, List.getElem?_range hj]
+    simp only [Option.map_some, Option.getD_some, List.head_cons]
+    have hc : commonTags e (p :: r) = (e.get p).map (·.tag) := by
+      show ((e.get p).map (·.tag)).filter _ = _
+      rw [List.filter_eq_self]
+      intro t ht
+      rw [hg t ht]
+      rfl
+    rw [hc, List.filterMap_map]
+    apply filterMap_congr_mem
+    intro t ht
+    rw [hg t ht]
+    rfl
 
 end SFV.Net
